@@ -158,6 +158,13 @@ def judge(args):
     flavours = [{"src": "cls", "call": "asyncdef"}]
     if "C04" in want:
         flavours.append({"src": "agen", "call": "asyncdef"})
+        nsrc_ = len(cfg["data"])
+        if nsrc_ >= 2 and tool != "iter":
+            # an iterator that cannot be closed among closable ones must not stop the cleanup
+            flavours.append({"src": ["clsnoclose"] + ["cls"] * (nsrc_ - 1), "call": "asyncdef"})
+            flavours.append({"src": ["cls"] * (nsrc_ - 1) + ["clsnoclose"], "call": "asyncdef"})
+    if "C06" in want and kind == "fault":
+        flavours.append({"src": "clstruthy", "call": "asyncdef"})
     if "C02" in want and is_agg:
         # the input given as async iterator, list, or one-shot iterator
         flavours = [{"src": f, "call": "asyncdef"} for f in ("cls", "list", "iter")]
@@ -165,13 +172,15 @@ def judge(args):
         # the shapes of the quantifier: list / iterator / async iterator, every callable flavour
         fault_kinds = ["exc", "typeerr"] if kind == "fault" else ["exc"]
         if tool == "sync":
-            flavours = [{"src": "cls", "call": c} for c in ("asyncdef", "def", "partial", "obj")]
+            flavours = [{"src": "cls", "call": c} for c in ("asyncdef", "def", "partial", "obj", "aw")]
         elif tool == "any_iter":
             flavours = [{"src": f, "call": "asyncdef"} for f in ("cls", "agen", "list", "iter")]
     for fl in flavours:
         for fk in fault_kinds:
-            if fl["src"] != "cls" and not ({"C04", "C19", "C02"} & want):
+            if fl["src"] != "cls" and not ({"C04", "C19", "C02", "C06"} & want):
                 continue
+            if isinstance(fl["src"], list):
+                fl = dict(fl, outer="cls")
             o = tm.execute(case, L, flav=fl, susp=opts.get("susp", 1), fault_kind=fk)
             cnt("impl_replays")
             canonical = fl["src"] == "cls" and fk == "exc"
@@ -236,7 +245,7 @@ def judge(args):
                                       "expected_log": e, "observed_log": g})
                 cnt("C19_cases")
             # C06: a failing use surfaces unchanged, nothing is used afterwards
-            if "C06" in want and fl["src"] == "cls" and kind == "fault":
+            if "C06" in want and fl["src"] in ("cls", "clstruthy") and kind == "fault":
                 if not o.fault_fired:
                     # the implementation never performs that use: the premise of C06 is
                     # vacuous here (which uses happen, and in what order, is C05's business)
@@ -339,7 +348,7 @@ def random_case(rnd, faults):
         par = {"start": rnd.choice([-1, 0, 1, 2, 3, 5, 6]), "stop": rnd.choice([-1, 0, 1, 3, 4, 6, 8, 9]), "step": rnd.choice([-1, 1, 2, 3, 4])}
         data = [seq([1], 10)]
     elif tool == "zip_longest":
-        data = [seq([1], 6) for _ in range(rnd.randint(0, 4))]
+        par, data = {"fill": rnd.choice(["fresh", "first"])}, [seq([1], 6) for _ in range(rnd.randint(0, 4))]
     elif tool == "merge":
         rev = b()
         par = {"key": b(), "rev": rev}
